@@ -13,7 +13,8 @@ Lemma tie_open_sizes :
 Proof. reflexivity. Qed.
 Lemma tie_crc_poly : src_CASTAGNOLI_POLY = 2197175160. Proof. reflexivity. Qed.   (* 0x82F63B78 *)
 Lemma tie_mask : (src_mask_shr, src_mask_shl, src_mask_add) = (15, 17, 2726488792). Proof. reflexivity. Qed.
-Lemma tie_fnv : (src_FNV_PRIME, src_FNV_BASIS) = (1099511628211, 14695981039346656037). Proof. reflexivity. Qed.
+(* The FNV prime and basis of the node cache are NOT pinned: they are no part of the format and no
+   property depends on their values; the registry model takes them from the source as they are. *)
 
 (* the 63 common inputs reachable through a 6-bit index are the pinned ones *)
 Lemma tie_common_inv : firstn 63 src_COMMON_INPUTS_INV = FMT_COMMON_INV.
